@@ -875,6 +875,11 @@ _U64 = [0, 1, 2**64 - 1, 2**63, 128, 2**35, 2**56]
 _F32MAX = 3.4028234663852886e38
 _FLOAT = [0.0, -0.0, 1.5, float("inf"), float("-inf"), float("nan"), _F32MAX]
 _DOUBLE = _FLOAT + [1e308, 5e-324]
+# doubles that are not float32 values but are legal in a float field (they round): the usual FLT_MAX literal and the
+# largest double that still rounds to a finite float32, values that round in the mantissa, one that rounds up to the
+# smallest denormal (a double that rounds to zero is left out: whether "zero" is emitted is judged on the rounded value by
+# the reference and on the stored value by betterproto, like -0.0 an allowed difference)
+_FLOAT32_ROUNDING = [3.4028235e38, -3.4028235e38, 3.4028235677973362e38, 0.1, 16777217.0, 1.401298464324817e-45 * 0.75]
 # the last entries sit on the length-prefix boundaries (127 | 128 bytes, 16383 | 16384 bytes)
 _STR = ["", "a", "é", "\U0001F600", "\x00", "y" * 127, "y" * 128, "z" * 16384]
 _BYTES = [b"", b"\x00", b"\xff\x00abc", b"\x07" * 128]
@@ -898,6 +903,9 @@ _TS = [
     datetime(1960, 6, 15, 1, 2, 3, 250000, tzinfo=_tz(-8)),
     datetime(2038, 1, 19, 3, 14, 8, tzinfo=UTC),
     datetime(2001, 9, 9, 1, 46, 40, 123000, tzinfo=UTC),
+    # fixed UTC offsets with a sub-second part (local mean time): the wall clock's microsecond is not the instant's
+    datetime(2020, 2, 29, 12, 34, 56, 789000, tzinfo=timezone(timedelta(hours=5, seconds=13, microseconds=250000))),
+    datetime(1969, 12, 31, 23, 59, 59, 100000, tzinfo=timezone(-timedelta(hours=0, minutes=17, seconds=2, microseconds=900001))),
 ]
 _MAXDUR = 315576000000
 _DUR = [
@@ -1354,7 +1362,9 @@ def _selected(m, group):
 
 
 def _set_ref_ts(ref_ts, dt):
-    ref_ts.FromDatetime(dt)
+    # the exact (seconds, nanos) of the instant; Timestamp.FromDatetime is a convenience that drops the sub-second part
+    # of a UTC offset (equal for every whole-second offset), the wire format is the pair
+    ref_ts.seconds, ref_ts.nanos = dt_to_sn(dt)
 
 
 def _set_ref_dur(ref_dur, td):
